@@ -396,7 +396,9 @@ func blockStringValue(in string) string {
 		}
 	}
 	if commonIndent > 0 {
-		for i, line := range lines {
+		// the first line keeps its indentation (BlockStringValue)
+		for i := 1; i < len(lines); i++ {
+			line := lines[i]
 			if commonIndent > len(line) {
 				continue
 			}
